@@ -20,11 +20,11 @@ INFO = {
     'require': {
         'quick': {'counters': {'sat_inverse': 1000, 'b23_inverse': 200, 'identity_r1': 500, 'identity_r2': 500,
                                'identity_r3': 500, 'monotone_density': 500, 'viscosity': 1000, 'boundary_13': 20,
-                               'boundary_23': 20, 'clausius_clapeyron': 100, 'region_classified': 2000},
+                               'boundary_23': 20, 'clausius_clapeyron': 100, 'region_classified': 2000, 'region_end_points': 100},
                   'nontrivial': 3000},
         'thorough': {'counters': {'sat_inverse': 4000, 'b23_inverse': 1000, 'identity_r1': 3000, 'identity_r2': 3000,
                                   'identity_r3': 3000, 'monotone_density': 3000, 'viscosity': 8000, 'boundary_13': 100,
-                                  'boundary_23': 100, 'clausius_clapeyron': 400, 'region_classified': 20000},
+                                  'boundary_23': 100, 'clausius_clapeyron': 400, 'region_classified': 20000, 'region_end_points': 100},
                      'nontrivial': 20000},
     },
     'watchdog_s': {'quick': 900, 'thorough': 3600},
@@ -58,7 +58,9 @@ def own_region(t, p, psat):
     """Region of (t degC, p Pa) by the release's definition; `psat` is the
     library's own saturation pressure (the boundary *is* that curve)."""
     tk = t + TK
-    if not (273.16 <= tk <= 1073.15 and 0 <= p <= 100e6):
+    # the range is stated in degC (0.01 + 273.15 is 273.15999999999997 in binary: a test in kelvin would
+    # exclude the triple-point temperature itself)
+    if not (0.01 <= t <= 800.0 and 0 <= p <= 100e6):
         return None
     if tk <= 623.15:
         return 1 if p > psat else 2
@@ -497,6 +499,14 @@ def run_regions(ctx, spec):
     for p in (1e5, 5e7):
         check(800.0 + 1e-6, p)
         check(0.01 - 1e-6, p)
+    # the closed end points of the temperature range and of the pressure range, exactly
+    for p in [1.0, 611.0, 612.0, 1e5, 5e7, 100e6] + lin(1e3, 99.9e6, 40):
+        check(0.01, p)
+        check(800.0, p)
+        ctx.count('region_end_points', 2)
+    for t in lin(0.01, 800.0, 80):
+        check(t, 100e6)
+        ctx.count('region_end_points')
 
 
 def run_visc_special(ctx):
